@@ -240,6 +240,24 @@ func binaryRunOnce(sp Spec, bin string) (o *outcome, portClash bool) {
 	t0 := time.Now()
 	o.add("cancels", 1)
 	o.add("signals_sent_"+sp.Signal, 1)
+	repeated := make(chan bool, 1)
+	if sp.RepeatSignalMs > 0 {
+		go func() {
+			select {
+			case <-exited:
+				repeated <- false
+			case <-time.After(time.Duration(sp.RepeatSignalMs) * time.Millisecond):
+				repeated <- cmd.Process.Signal(sig) == nil
+			}
+		}()
+	} else {
+		repeated <- false
+	}
+	defer func() {
+		if <-repeated {
+			o.add("signals_repeated_during_shutdown", 1)
+		}
+	}()
 	var watchers []*watcher
 	for _, s := range idle {
 		watchers = append(watchers, watch("idle keep-alive", s.TLS))
